@@ -396,6 +396,9 @@ func ops() []op {
 		op{name: "in-subquery", swallower: always("in-subquery"), sql: func(x src) string {
 			return fmt.Sprintf("SELECT a.id AS id FROM %s a WHERE a.id IN (SELECT b.%s FROM %s b WHERE %s)", x.ok, x.id, x.table, x.pred("b"))
 		}},
+		op{name: "unnest", swallower: never, sql: func(x src) string {
+			return fmt.Sprintf("SELECT unnest((SELECT r.i FROM range(start=>0, end=>2) r)) AS u, b.%s AS id FROM %s b WHERE %s", x.id, x.table, x.pred("b"))
+		}},
 		op{name: "tvf-max-diff-watermark", needs: "ts", swallower: never, sql: func(x src) string {
 			return fmt.Sprintf("WITH x AS (SELECT * FROM %s f WHERE %s) SELECT m.%s AS id FROM max_diff_watermark(source=>TABLE(x), max_diff=>INTERVAL 1 SECONDS, time_field=>DESCRIPTOR(ts)) m", x.table, x.pred("f"), x.id)
 		}},
